@@ -179,6 +179,96 @@ func c10keysLeaf(r *rand.Rand, tr *lib.Trace, kind int, split *int) []string {
 	return keys
 }
 
+// c10sep: a separator, short ones in hex, long ones as length and checksum
+func c10sep(s string) string {
+	if len(s) <= 12 {
+		return lib.X(s)
+	}
+	h := uint64(7)
+	for i := 0; i < len(s); i++ {
+		h = c10hstep(h, uint64(s[i]))
+	}
+	return fmt.Sprintf("s%d:%d", len(s), h)
+}
+
+// c10shape: the complete shape of the stored tree: "<treeLevels> <nodes>", a tree node is
+// "[ child xsep child … child ]", a leaf "L<prefix length>:<keys>:<bytes>"
+func c10shape(bt *T) string {
+	var sb strings.Builder
+	fmt.Fprintf(&sb, "%d ", bt.treeLevels)
+	var walk func(level int, off uint64)
+	walk = func(level int, off uint64) {
+		if level < bt.treeLevels {
+			nd := bt.readTree(off)
+			sb.WriteString("[ ")
+			for i := 0; i < nd.nkeys(); i++ {
+				walk(level+1, nd.offset(i))
+				sb.WriteString(" " + c10sep(string(nd.key(i))) + " ")
+			}
+			walk(level+1, nd.offset(nd.nkeys()))
+			sb.WriteString(" ]")
+		} else {
+			nd := bt.readLeaf(off)
+			fmt.Fprintf(&sb, "L%d:%d:%d", nd[1], nd.nkeys(), len(nd))
+		}
+	}
+	walk(0, bt.root)
+	return sb.String()
+}
+
+// c10leafQ: some stored leaf nodes, byte for byte, against the leaf codec of the model
+// (decode = the accessors key(i)/offset(i)/size(), encode of the decoded leaf = the stored bytes)
+func c10leafQ(tr *lib.Trace, bt *T, hist string, r *rand.Rand) bool {
+	var leaves []uint64
+	var walk func(level int, off uint64)
+	walk = func(level int, off uint64) {
+		if level < bt.treeLevels {
+			nd := bt.readTree(off)
+			for i := 0; i < nd.noffs(); i++ {
+				walk(level+1, nd.offset(i))
+			}
+		} else {
+			leaves = append(leaves, off)
+		}
+	}
+	ok := true
+	if msg := lib.Catch(func() {
+		walk(0, bt.root)
+		for i := 0; i < 3 && len(leaves) > 0; i++ {
+			j := r.Intn(len(leaves))
+			if i == 0 && r.Intn(2) == 0 {
+				j = len(leaves) - 1
+			}
+			nd := bt.readLeaf(leaves[j])
+			if len(nd) > 20000 {
+				continue
+			}
+			var es []c10kv
+			for q := 0; q < nd.nkeys(); q++ {
+				es = append(es, c10kv{nd.key(q), nd.offset(q)})
+			}
+			tr.Q("leafcodec "+lib.X(string(nd)),
+				fmt.Sprintf("%d %d %d %d %d t", nd[1], nd.nkeys(), c10hash(es), nd.size(), len(nd)))
+			tr.Count("leafcodec")
+		}
+	}); msg != "" {
+		tr.Fail("node-walk-panic", hist+" leafcodec :: "+msg)
+		ok = false
+	}
+	return ok
+}
+
+// c10shapeQ: the shape of the real tree against the abstract tree of the model (driver state)
+func c10shapeQ(tr *lib.Trace, bt *T, hist string) bool {
+	var sh string
+	if msg := lib.Catch(func() { sh = c10shape(bt) }); msg != "" {
+		tr.Fail("node-walk-panic", hist+" shape :: "+msg)
+		return false
+	}
+	tr.Q("shape", sh)
+	return true
+}
+
 func TestVerifC10(t *testing.T) {
 	tr := lib.Open()
 	defer tr.Close()
@@ -260,6 +350,19 @@ func c10one(tr *lib.Trace, r *rand.Rand, ci, split int) {
 	}
 	if !c10check(tr, bt, model, hist+" after build", sb.String(), r) {
 		return
+	}
+	if !c10shapeQ(tr, bt, hist+" after build") || !c10leafQ(tr, bt, hist+" after build", r) {
+		return
+	}
+	for i := 0; i < 4 && len(keys) > 0; i++ { // Lookup by descent through the abstract tree
+		k := keys[r.Intn(len(keys))]
+		switch r.Intn(4) {
+		case 0:
+			k += "\x00"
+		case 1:
+			k = k[:len(k)-len(k)/2]
+		}
+		tr.Q("tlookup "+lib.X(k), fmt.Sprint(bt.Lookup(k)))
 	}
 	nb := 1 + r.Intn(12)
 	for bi := 0; bi < nb; bi++ {
@@ -365,6 +468,16 @@ func c10one(tr *lib.Trace, r *rand.Rand, ci, split int) {
 		sort.Strings(keys)
 		if !c10check(tr, bt, model, hist, q.String(), r) {
 			return
+		}
+		if !c10shapeQ(tr, bt, hist) || !c10leafQ(tr, bt, hist, r) {
+			return
+		}
+		for i := 0; i < 2 && len(keys) > 0; i++ {
+			k := keys[r.Intn(len(keys))]
+			if r.Intn(3) == 0 {
+				k += "\x01"
+			}
+			tr.Q("tlookup "+lib.X(k), fmt.Sprint(bt.Lookup(k)))
 		}
 	}
 	if ci < 3 {
